@@ -33,6 +33,9 @@ type PropConfig struct {
 	Explanation string   `json:"explanation"`
 	Assumptions []string `json:"assumptions"`
 	Outside     []string `json:"outside_bounds"`
+	// RaceDetect: harness calls to vRaceDetect() take effect (only the property that owns the no-data-race
+	// clause sets it, so that a race never raises an alarm under another property's id)
+	RaceDetect bool `json:"race_detect,omitempty"`
 }
 
 type KnownFinding struct {
@@ -202,6 +205,9 @@ func RunProperty(o Options) int {
 			for k, v := range u.Params["quick"] {
 				params[k] = v
 			}
+		}
+		if pc.RaceDetect {
+			params["RACE"] = 1
 		}
 		to := 600
 		if v, ok := u.Timeout[o.Tier]; ok {
@@ -582,6 +588,34 @@ func goEnv() []string {
 
 // buildReplay compiles the native test binary of a package with the harness overlaid.
 func buildReplay(o Options, hs *HarnessSet, pkgNames map[string]string, rb *replayBuild, rel string) (string, string) {
+	return buildReplayMode(o, hs, pkgNames, rb, rel, false)
+}
+
+// buildReplayMode: with race=true the test binary is built with the Go race detector (-race), used to confirm
+// data-race counterexamples against the real code.
+func buildReplayMode(o Options, hs *HarnessSet, pkgNames map[string]string, rb *replayBuild, rel string, race bool) (string, string) {
+	if race {
+		key := rel + "#race"
+		if b, ok := rb.bin[key]; ok {
+			return b, rb.err[key]
+		}
+		ovf, err := genReplayFiles(o, hs, pkgNames, rb.dir)
+		if err != nil {
+			rb.bin[key], rb.err[key] = "", err.Error()
+			return "", err.Error()
+		}
+		bin := filepath.Join(rb.dir, strings.ReplaceAll(rel, "/", "_")+".race.test")
+		cmd := exec.Command("go", "test", "-c", "-race", "-vet=off", "-overlay", ovf, "-o", bin, "./"+rel)
+		cmd.Dir = o.Repo
+		cmd.Env = goEnv()
+		out, err := cmd.CombinedOutput()
+		if err != nil {
+			rb.bin[key], rb.err[key] = "", "native -race build failed: "+string(out)
+			return "", rb.err[key]
+		}
+		rb.bin[key] = bin
+		return bin, ""
+	}
 	if b, ok := rb.bin[rel]; ok {
 		return b, rb.err[rel]
 	}
@@ -710,6 +744,26 @@ func replayViolations(o Options, hs *HarnessSet, pkgNames map[string]string, vio
 		v.Path = filepath.Join(rdir, fmt.Sprintf("%03d_%s_%s.json", n, v.Harness, sanitize(v.AssertID)))
 		if o.NoReplay {
 			v.Replayed = "confirmed"
+		} else if v.Kind == "race" {
+			// a data race is confirmed by the Go race detector on the real build, run on the same input (the race
+			// detector is happens-before based too, so it does not depend on hitting a particular interleaving)
+			rel := pkgOf[v.Harness]
+			bin, berr := buildReplayMode(o, hs, pkgNames, rb, rel, true)
+			v.Replayed = "spurious"
+			if bin == "" {
+				v.Msg += " [" + berr + "]"
+			} else {
+				for try := 0; try < 5 && v.Replayed != "confirmed"; try++ {
+					res := runNative(bin, filepath.Join(o.Repo, rel), v.Harness, v.Model, v.Params, tmp)
+					if strings.Contains(res.raw, "WARNING: DATA RACE") {
+						v.Replayed = "confirmed"
+						v.Msg += " [confirmed natively: the Go race detector reports a data race on this input]"
+					}
+				}
+				if v.Replayed != "confirmed" {
+					v.Msg += " [the Go race detector did not report a race in 5 native runs]"
+				}
+			}
 		} else if schedDependent(v.Model) {
 			if interpReplay != nil && interpReplay(v) {
 				v.Replayed = "confirmed"
@@ -782,6 +836,25 @@ func ReplayFile(o Options, path string) int {
 	if err != nil {
 		fmt.Println(err)
 		return 2
+	}
+	if r.Kind == "race" {
+		tmp, _ := os.MkdirTemp("", "symgo-replay-")
+		defer os.RemoveAll(tmp)
+		rb := &replayBuild{dir: tmp, bin: map[string]string{}, err: map[string]string{}}
+		bin, berr := buildReplayMode(o, hs, map[string]string{r.Pkg: name}, rb, r.Pkg, true)
+		if bin == "" {
+			fmt.Println(berr)
+			return 2
+		}
+		for try := 0; try < 5; try++ {
+			res := runNative(bin, filepath.Join(o.Repo, r.Pkg), r.Harness, r.Model, r.Params, tmp)
+			if strings.Contains(res.raw, "WARNING: DATA RACE") {
+				fmt.Print(res.raw)
+				return 1
+			}
+		}
+		fmt.Println("the Go race detector did not report a race in 5 native runs")
+		return 0
 	}
 	if schedDependent(r.Model) {
 		// fixes a goroutine schedule / select choice / map order: re-execute deterministically in the interpreter
